@@ -44,8 +44,8 @@ def drive(coro: Any) -> Any:
 
 QUERIES: list[dict[str, Any]] = [
     {"handler_id_in": h, "run_id_in": r, "workflow_name_in": w, "status_in": s, "is_idle": i}
-    for h in (None, [], ["h1"], ["h1", "h3"])
-    for r in (None, [], ["r1", "r2"])
+    for h in (None, [], ["h1"], ["h1", "h3"], ["h1", "h3", "h1"])  # (the last: a merged id list naming one id twice)
+    for r in (None, [], ["r1", "r2"], ["r2", "r1", "r2"])
     for w in (None, [], ["wfa"])
     for s in (None, [], ["running"], ["completed", "failed"])
     for i in (None, True, False)
@@ -55,7 +55,7 @@ SMALL_QUERIES = [q for q in QUERIES if sum(v is not None for v in q.values()) <=
                        {"handler_id_in": ["h1", "h3"], "run_id_in": None, "workflow_name_in": None, "status_in": ["running"], "is_idle": True})]
 # (a delete without any filter is outside the property - "a delete with at least one filter" - and is not exercised)
 DELETES = [{"handler_id_in": ["h1"]}, {"status_in": ["completed", "failed"]}, {"is_idle": True}, {"workflow_name_in": ["wfa"], "status_in": ["running"]},
-           {"run_id_in": []}, {"handler_id_in": ["h2"], "is_idle": False}]
+           {"run_id_in": []}, {"handler_id_in": ["h2"], "is_idle": False}, {"handler_id_in": ["h1", "h2", "h1"]}, {"run_id_in": ["r1", "r1"]}]
 
 
 def ref_match(h: dict[str, Any], q: dict[str, Any]) -> bool:
